@@ -1,6 +1,6 @@
 SPECIFICATION LTSpec
 CONSTANTS
-  Levels <- TraceLevels
+  Levels <- MCLevels3
   LvValues <- TraceLevels
   NLev = 4
   InnerMins <- TraceInnerMins
@@ -8,8 +8,9 @@ CONSTANTS
   Groups = {0}
   Msgs = {0}
   Outcomes <- TraceOutcomes
+  OpKinds <- AllKinds
   MaxH = 1000000
   MaxI = 1000000
   MaxOps = 1000000
-INVARIANTS LevelLattice TreeShape SiblingsIsolated Delegation
+INVARIANTS TreeShape Delegation
 CHECK_DEADLOCK FALSE
